@@ -334,4 +334,72 @@ theorem parse_file (o : Opt) (a : FileAnchor) (path : Str) (fparams : List Param
       simp only [he]; exact toKind_cmdline e hk
     · simp only [hnd, if_false]; exact toKind_cmdline _ rfl
 
+/-! ## inversion lemmas used by the property file -/
+
+theorem ite_err_ok {ε α : Type} {c : Prop} [Decidable c] {e : ε} {x : Except ε α} {a : α}
+    (h : (if c then Except.error e else x) = .ok a) : x = .ok a := by
+  by_cases hc : c
+  · rw [if_pos hc] at h; cases h
+  · rw [if_neg hc] at h; exact h
+
+theorem ite_ok_cases {ε α : Type} {c : Prop} [Decidable c] {x y : Except ε α} {a : α}
+    (h : (if c then x else y) = .ok a) : x = .ok a ∨ y = .ok a := by
+  by_cases hc : c
+  · rw [if_pos hc] at h; exact Or.inl h
+  · rw [if_neg hc] at h; exact Or.inr h
+
+theorem toKind_error_inv {α : Type} {r : Except Err α} (h : toKind r = .error .cmdline) : ∃ e, r = .error e ∧ e.isCmdline = true := by
+  cases r with
+  | ok a => cases h
+  | error e =>
+    refine ⟨e, rfl, ?_⟩
+    simp only [toKind, kindOf] at h
+    cases hk : e.isCmdline with
+    | true => rfl
+    | false =>
+      rw [hk] at h
+      simp only [Bool.false_eq_true, if_false] at h
+      split at h <;> cases h
+
+/-- what makes a single adapter invalid, besides inconsistent parameters -/
+theorem meaningPart_invalid (t : AType) (inL : Bool) (p : Part) (base : Base) (nm : Option Str)
+    (h : paramsConsistent p.params = false ∨ classOf t p.restr (paramSem p.params).rightmost = none ∨
+      ((paramSem p.params).o.isSome = true ∧ p.restr.anchored = true) ∨ (inL = false ∧ (paramSem p.params).required.isSome = true)) :
+    meaningPart t inL p base nm = .error .cmdline := by
+  unfold meaningPart
+  by_cases hc : paramsConsistent p.params = true
+  · simp only [hc, Bool.not_true, Bool.false_eq_true, if_false]
+    rcases h with h | h | h | h
+    · rw [hc] at h; cases h
+    · rw [h]
+    · cases classOf t p.restr (paramSem p.params).rightmost with
+      | none => rfl
+      | some cls => simp [h]
+    · cases classOf t p.restr (paramSem p.params).rightmost with
+      | none => rfl
+      | some cls =>
+        simp only
+        split
+        · rfl
+        · simp [h]
+  · simp [hc]
+
+theorem buildPart_req {p : Part} {base : Base} {cls : Cls} {nm : Option Str} {fa : Bool} {a : Single} {r : Option Value}
+    (h : buildPart p base cls nm fa = .ok (a, r)) : r = (paramSem p.params).required := by
+  unfold buildPart at h
+  have h2 := ite_err_ok (ite_err_ok h)
+  injection h2 with h2
+  injection h2 with _ h2
+  exact h2.symm
+
+theorem meaningPart_req {t : AType} {inL : Bool} {p : Part} {base : Base} {nm : Option Str} {a : Single} {r : Option Value}
+    (h : meaningPart t inL p base nm = .ok (a, r)) : r = (paramSem p.params).required := by
+  unfold meaningPart at h
+  have h1 := ite_err_ok h
+  cases hc : classOf t p.restr (paramSem p.params).rightmost with
+  | none => rw [hc] at h1; cases h1
+  | some cls =>
+    rw [hc] at h1
+    exact buildPart_req (ite_err_ok (ite_err_ok h1))
+
 end Cutadapt.ParserProofs
